@@ -246,7 +246,11 @@ func runCheck(prop, tier string) int {
 			}
 		}
 		runs = keep
+		pure := spec.Pure
 		spec = &CheckSpec{Prop: spec.Prop, Runs: spec.Runs}
+		if strings.Contains(","+only+",", ",pure,") {
+			spec.Pure = pure
+		}
 	}
 	for ri, rs := range runs {
 		t0 := time.Now()
